@@ -58,6 +58,222 @@ impl Broker {
                 && (forall|x: ServiceCookie| #![trigger self.conns@[c].ev(x)] self.conns@[c].ev(x) == o.conns@[c].ev(x))
     }
 
+
+    // ---- transition lemmas: invariant preservation proved away from the handler bodies (stability) ------------------------
+    // everything but the call bookkeeping is identical
+    spec fn frame_for_calls(&self, o: &Self, k: (ObjectUuid, ServiceUuid)) -> bool {
+        &&& self.same_rest(o) &&& self.obj_uuids@ =~= o.obj_uuids@ &&& self.objs@ =~= o.objs@ &&& self.svc_uuids@ =~= o.svc_uuids@
+        &&& self.svcs@.dom() =~= o.svcs@.dom() &&& self.conns@.dom() =~= o.conns@.dom()
+        &&& forall|k2: (ObjectUuid, ServiceUuid)| #![trigger self.svcs@.contains_key(k2)] o.svcs@.contains_key(k2) && k2 != k ==> self.svcs@[k2] == o.svcs@[k2]
+        &&& o.svcs@.contains_key(k) ==> {
+                &&& self.svcs@[k].cookie == o.svcs@[k].cookie &&& self.svcs@[k].object_cookie == o.svcs@[k].object_cookie
+                &&& self.svcs@[k].all_events == o.svcs@[k].all_events &&& self.svcs@[k].subscriptions == o.svcs@[k].subscriptions
+                &&& self.svcs@[k].inv() == o.svcs@[k].inv()
+                &&& forall|e: u32| #![trigger self.svcs@[k].subs(e)] self.svcs@[k].subs(e) == o.svcs@[k].subs(e)
+            }
+    }
+
+    // connection `c`'s caller table is `calls`, the rest of it and every other connection is identical
+    spec fn conns_same_but_calls(&self, o: &Self, c: ConnectionId, calls: Map<u32, (u32, ConnectionId)>) -> bool {
+        &&& forall|c2: ConnectionId| #![trigger self.conns@.contains_key(c2)] o.conns@.contains_key(c2) && c2 != c ==> self.conns@[c2] == o.conns@[c2]
+        &&& o.conns@.contains_key(c) ==> {
+                &&& self.conns@[c].calls@ =~= calls
+                &&& self.conns@[c].rest_eq(&o.conns@[c], 9)
+                &&& self.conns@[c].inv() == o.conns@[c].inv()
+                &&& forall|x: ServiceCookie| #![trigger self.conns@[c].ev(x)] self.conns@[c].ev(x) == o.conns@[c].ev(x)
+            }
+    }
+
+    proof fn lemma_frame_parts(&self, o: &Self, k: (ObjectUuid, ServiceUuid))
+        requires o.reg_inv(), self.frame_for_calls(o, k), o.svcs@.contains_key(k),
+            forall|c: ConnectionId| #![trigger self.conns@.contains_key(c)] o.conns@.contains_key(c) ==> self.conns@[c].rest_eq(&o.conns@[c], 9)
+                && self.conns@[c].inv() == o.conns@[c].inv()
+                && (forall|x: ServiceCookie| #![trigger self.conns@[c].ev(x)] self.conns@[c].ev(x) == o.conns@[c].ev(x)),
+        ensures self.inv_objects(), self.inv_services(), self.inv_object_services(), self.inv_ownership(), self.inv_conns(), self.inv_subs(),
+            self.no_orphans(), self.subscribers_connected(),
+            forall|u: ObjectUuid| #![trigger self.objs@[u]] self.objs@.contains_key(u) ==> self.conns@.contains_key(self.objs@[u].conn_id),
+    {
+        assert(self.obj_uuids@ == o.obj_uuids@ && self.objs@ == o.objs@ && self.svc_uuids@ == o.svc_uuids@);
+        assert(self.inv_services()) by {
+            assert forall|x: ServiceCookie| self.svc_uuids@.contains_key(x) implies self.svcs@.contains_key(self.skey(x))
+                && self.svcs@[self.skey(x)].cookie == x && self.svcs@[self.skey(x)].object_cookie == self.svc_uuids@[x].0.cookie by {
+                assert(o.svc_uuids@.contains_key(x)); assert(o.svcs@.contains_key(o.skey(x)));
+            }
+            assert forall|k2: (ObjectUuid, ServiceUuid)| self.svcs@.contains_key(k2) implies self.svc_uuids@.contains_key(self.svcs@[k2].cookie)
+                && self.skey(self.svcs@[k2].cookie) == k2 by {
+                assert(o.svcs@.contains_key(k2)); assert(o.svc_uuids@.contains_key(o.svcs@[k2].cookie));
+            }
+        }
+        assert(self.inv_ownership()) by {
+            assert forall|c: ConnectionId, x: ObjectCookie| self.conns@.contains_key(c) && #[trigger] self.conns@[c].objects@.contains(x) implies
+                self.obj_uuids@.contains_key(x) && self.objs@[self.obj_uuids@[x]].conn_id == c by {
+                assert(o.conns@.contains_key(c)); assert(o.conns@[c].objects@.contains(x));
+            }
+            assert forall|u: ObjectUuid| self.objs@.contains_key(u) && self.conns@.contains_key(self.objs@[u].conn_id) implies
+                self.conns@[self.objs@[u].conn_id].objects@.contains(self.objs@[u].cookie) by {
+                assert(o.objs@.contains_key(u)); assert(o.conns@.contains_key(o.objs@[u].conn_id));
+            }
+        }
+        assert(self.inv_conns()) by {
+            assert forall|c: ConnectionId| self.conns@.contains_key(c) implies self.conns@[c].inv() by { assert(o.conns@.contains_key(c)); }
+        }
+        assert(self.inv_subs() && self.subscribers_connected()) by {
+            assert forall|k2: (ObjectUuid, ServiceUuid)| self.svcs@.contains_key(k2) implies self.svcs@[k2].inv() by { assert(o.svcs@.contains_key(k2)); }
+            assert forall|k2: (ObjectUuid, ServiceUuid), e: u32, c: ConnectionId| self.svcs@.contains_key(k2) && #[trigger] self.svcs@[k2].subs(e).contains(c)
+                implies self.conns@.contains_key(c) && self.conns@[c].ev(self.svcs@[k2].cookie).contains(e) by {
+                assert(o.svcs@.contains_key(k2)); assert(o.svcs@[k2].subs(e).contains(c)); assert(o.conns@.contains_key(c));
+            }
+            assert forall|k2: (ObjectUuid, ServiceUuid), c: ConnectionId| self.svcs@.contains_key(k2) && #[trigger] self.svcs@[k2].all_events@.contains(c)
+                implies self.conns@.contains_key(c) && self.conns@[c].all_events@.contains(self.svcs@[k2].cookie) by {
+                assert(o.svcs@.contains_key(k2)); assert(o.svcs@[k2].all_events@.contains(c)); assert(o.conns@.contains_key(c));
+            }
+            assert forall|k2: (ObjectUuid, ServiceUuid), c: ConnectionId| self.svcs@.contains_key(k2) && #[trigger] self.svcs@[k2].subscriptions@.contains(c)
+                implies self.conns@.contains_key(c) && self.conns@[c].subscriptions@.contains(self.svcs@[k2].cookie) by {
+                assert(o.svcs@.contains_key(k2)); assert(o.svcs@[k2].subscriptions@.contains(c)); assert(o.conns@.contains_key(c));
+            }
+        }
+        assert forall|u: ObjectUuid| self.objs@.contains_key(u) implies self.conns@.contains_key(self.objs@[u].conn_id) by { assert(o.objs@.contains_key(u)); }
+    }
+
+    // a call was registered: table entry `s`, in service `k`'s set, in caller `c`'s table under `cs`
+    proof fn lemma_call_added(&self, o: &Self, k: (ObjectUuid, ServiceUuid), c: ConnectionId, s: u32, cs: u32, callee: ConnectionId)
+        requires
+            o.reg_inv(), self.frame_for_calls(o, k), o.svcs@.contains_key(k), o.conns@.contains_key(c),
+            !o.calls().contains_key(s), !o.conns@[c].calls@.contains_key(cs),
+            self.calls() =~= o.calls().insert(s, PendingFunctionCall { caller_serial: cs, caller_conn_id: c, callee_obj: k.0, callee_svc: k.1, aborted: false }),
+            self.svcs@[k].function_calls@ == o.svcs@[k].function_calls@.insert(s),
+            self.conns_same_but_calls(o, c, o.conns@[c].calls@.insert(cs, (s, callee))),
+        ensures
+            self.inv_objects(), self.inv_services(), self.inv_object_services(), self.inv_ownership(),
+            self.inv_calls(), self.inv_callers(), self.inv_conns(), self.inv_subs(), self.reg_winv(), self.reg_inv(),
+    {
+        self.lemma_frame_parts(o, k);
+        assert(self.inv_calls()) by {
+            assert forall|x: u32| self.calls().contains_key(x) implies
+                self.svcs@.contains_key((self.calls()[x].callee_obj, self.calls()[x].callee_svc))
+                && self.svcs@[(self.calls()[x].callee_obj, self.calls()[x].callee_svc)].function_calls@.contains(x) by {
+                if x != s {
+                    assert(o.calls().contains_key(x));
+                    let kx = (o.calls()[x].callee_obj, o.calls()[x].callee_svc);
+                    assert(o.svcs@.contains_key(kx) && o.svcs@[kx].function_calls@.contains(x));
+                }
+            }
+            assert forall|k2: (ObjectUuid, ServiceUuid), x: u32| self.svcs@.contains_key(k2) && #[trigger] self.svcs@[k2].function_calls@.contains(x)
+                implies self.calls().contains_key(x) && self.calls()[x].callee_obj == k2.0 && self.calls()[x].callee_svc == k2.1 by {
+                assert(o.svcs@.contains_key(k2));
+                if !(k2 == k && x == s) { assert(o.svcs@[k2].function_calls@.contains(x)); }
+            }
+        }
+        assert(self.inv_callers()) by {
+            assert forall|x: u32| self.calls().contains_key(x) && !self.calls()[x].aborted && self.conns@.contains_key(self.calls()[x].caller_conn_id)
+                implies self.conns@[self.calls()[x].caller_conn_id].calls@.contains_key(self.calls()[x].caller_serial)
+                && self.conns@[self.calls()[x].caller_conn_id].calls@[self.calls()[x].caller_serial].0 == x by {
+                if x != s {
+                    assert(o.calls().contains_key(x));
+                    let cx = o.calls()[x].caller_conn_id;
+                    assert(o.conns@.contains_key(cx));
+                    assert(o.conns@[cx].calls@.contains_key(o.calls()[x].caller_serial));
+                }
+            }
+        }
+    }
+
+    // the pending call `s` was consumed (reply accepted): gone from the table and from its service's set; if `entry` the
+    // caller's table entry went with it, otherwise no connection changed
+    proof fn lemma_call_consumed(&self, o: &Self, s: u32, entry: bool)
+        requires
+            o.reg_inv(), o.calls().contains_key(s),
+            self.frame_for_calls(o, (o.calls()[s].callee_obj, o.calls()[s].callee_svc)),
+            self.calls() =~= o.calls().remove(s),
+            self.svcs@[(o.calls()[s].callee_obj, o.calls()[s].callee_svc)].function_calls@
+                == o.svcs@[(o.calls()[s].callee_obj, o.calls()[s].callee_svc)].function_calls@.remove(s),
+            entry ==> !o.calls()[s].aborted && o.conns@.contains_key(o.calls()[s].caller_conn_id)
+                && self.conns_same_but_calls(o, o.calls()[s].caller_conn_id, o.conns@[o.calls()[s].caller_conn_id].calls@.remove(o.calls()[s].caller_serial)),
+            !entry ==> self.conns@ =~= o.conns@,
+        ensures
+            self.inv_objects(), self.inv_services(), self.inv_object_services(), self.inv_ownership(),
+            self.inv_calls(), self.inv_callers(), self.inv_conns(), self.inv_subs(), self.reg_winv(), self.reg_inv(),
+    {
+        let k = (o.calls()[s].callee_obj, o.calls()[s].callee_svc);
+        assert(o.svcs@.contains_key(k));
+        self.lemma_frame_parts(o, k);
+        assert(self.inv_calls()) by {
+            assert forall|x: u32| self.calls().contains_key(x) implies
+                self.svcs@.contains_key((self.calls()[x].callee_obj, self.calls()[x].callee_svc))
+                && self.svcs@[(self.calls()[x].callee_obj, self.calls()[x].callee_svc)].function_calls@.contains(x) by {
+                assert(o.calls().contains_key(x));
+                let kx = (o.calls()[x].callee_obj, o.calls()[x].callee_svc);
+                assert(o.svcs@.contains_key(kx) && o.svcs@[kx].function_calls@.contains(x));
+            }
+            assert forall|k2: (ObjectUuid, ServiceUuid), x: u32| self.svcs@.contains_key(k2) && #[trigger] self.svcs@[k2].function_calls@.contains(x)
+                implies self.calls().contains_key(x) && self.calls()[x].callee_obj == k2.0 && self.calls()[x].callee_svc == k2.1 by {
+                assert(o.svcs@.contains_key(k2));
+                assert(o.svcs@[k2].function_calls@.contains(x));
+            }
+        }
+        assert(self.inv_callers()) by {
+            assert forall|x: u32| self.calls().contains_key(x) && !self.calls()[x].aborted && self.conns@.contains_key(self.calls()[x].caller_conn_id)
+                implies self.conns@[self.calls()[x].caller_conn_id].calls@.contains_key(self.calls()[x].caller_serial)
+                && self.conns@[self.calls()[x].caller_conn_id].calls@[self.calls()[x].caller_serial].0 == x by {
+                assert(o.calls().contains_key(x));
+                let cx = o.calls()[x].caller_conn_id;
+                assert(o.conns@.contains_key(cx));
+                assert(o.conns@[cx].calls@.contains_key(o.calls()[x].caller_serial));
+                assert(o.conns@[cx].calls@[o.calls()[x].caller_serial].0 == x);
+            }
+        }
+    }
+
+    // the pending call `s` was marked aborted; if `entry` the caller's table entry was consumed
+    proof fn lemma_call_aborted(&self, o: &Self, s: u32, entry: bool)
+        requires
+            o.reg_inv(), o.calls().contains_key(s), !o.calls()[s].aborted,
+            self.frame_for_calls(o, (o.calls()[s].callee_obj, o.calls()[s].callee_svc)),
+            self.svcs@[(o.calls()[s].callee_obj, o.calls()[s].callee_svc)].function_calls@
+                == o.svcs@[(o.calls()[s].callee_obj, o.calls()[s].callee_svc)].function_calls@,
+            self.calls().dom() =~= o.calls().dom(),
+            self.calls()[s].aborted, self.calls()[s].caller_serial == o.calls()[s].caller_serial,
+            self.calls()[s].caller_conn_id == o.calls()[s].caller_conn_id,
+            self.calls()[s].callee_obj == o.calls()[s].callee_obj, self.calls()[s].callee_svc == o.calls()[s].callee_svc,
+            forall|x: u32| #![trigger self.calls().contains_key(x)] x != s && o.calls().contains_key(x) ==> self.calls()[x] == o.calls()[x],
+            entry ==> o.conns@.contains_key(o.calls()[s].caller_conn_id)
+                && self.conns_same_but_calls(o, o.calls()[s].caller_conn_id, o.conns@[o.calls()[s].caller_conn_id].calls@.remove(o.calls()[s].caller_serial)),
+            !entry ==> self.conns@ =~= o.conns@,
+        ensures
+            self.inv_objects(), self.inv_services(), self.inv_object_services(), self.inv_ownership(),
+            self.inv_calls(), self.inv_callers(), self.inv_conns(), self.inv_subs(), self.reg_winv(), self.reg_inv(),
+    {
+        let k = (o.calls()[s].callee_obj, o.calls()[s].callee_svc);
+        assert(o.svcs@.contains_key(k));
+        self.lemma_frame_parts(o, k);
+        assert(self.inv_calls()) by {
+            assert forall|x: u32| self.calls().contains_key(x) implies
+                self.svcs@.contains_key((self.calls()[x].callee_obj, self.calls()[x].callee_svc))
+                && self.svcs@[(self.calls()[x].callee_obj, self.calls()[x].callee_svc)].function_calls@.contains(x) by {
+                assert(o.calls().contains_key(x));
+                let kx = (o.calls()[x].callee_obj, o.calls()[x].callee_svc);
+                assert(o.svcs@.contains_key(kx) && o.svcs@[kx].function_calls@.contains(x));
+            }
+            assert forall|k2: (ObjectUuid, ServiceUuid), x: u32| self.svcs@.contains_key(k2) && #[trigger] self.svcs@[k2].function_calls@.contains(x)
+                implies self.calls().contains_key(x) && self.calls()[x].callee_obj == k2.0 && self.calls()[x].callee_svc == k2.1 by {
+                assert(o.svcs@.contains_key(k2));
+                assert(o.svcs@[k2].function_calls@.contains(x));
+            }
+        }
+        assert(self.inv_callers()) by {
+            assert forall|x: u32| self.calls().contains_key(x) && !self.calls()[x].aborted && self.conns@.contains_key(self.calls()[x].caller_conn_id)
+                implies self.conns@[self.calls()[x].caller_conn_id].calls@.contains_key(self.calls()[x].caller_serial)
+                && self.conns@[self.calls()[x].caller_conn_id].calls@[self.calls()[x].caller_serial].0 == x by {
+                assert(x != s);
+                assert(o.calls().contains_key(x));
+                let cx = o.calls()[x].caller_conn_id;
+                assert(o.conns@.contains_key(cx));
+                assert(o.conns@[cx].calls@.contains_key(o.calls()[x].caller_serial));
+                assert(o.conns@[cx].calls@[o.calls()[x].caller_serial].0 == x);
+            }
+        }
+    }
+
     // ---- routing of a call ---------------------------------------------------------------------------------------
     //@fn broker/src/broker.rs Broker::call_function_impl
         requires
@@ -95,6 +311,7 @@ impl Broker {
             assert(!old(self).calls().contains_key(serial));
             assert(self.calls().contains_key(serial));
             assert(self.svcs@[k].function_calls@ == old(self).svcs@[k].function_calls@.insert(serial));
+            self.lemma_call_added(old(self), k, *id, serial, req.serial, old(self).objs@[k.0].conn_id);
         }
     //@end
 
@@ -176,6 +393,14 @@ impl Broker {
             final(self).inv_objects(), final(self).inv_services(), final(self).inv_object_services(), final(self).inv_ownership(),
             final(self).inv_calls(), final(self).inv_callers(), final(self).inv_conns(), final(self).inv_subs(),
             final(self).reg_winv(), final(self).reg_inv(),
+    //@ghost before#3/5 `return;`
+        // (the call was aborted: the late reply is dropped, no connection is touched)
+        proof { self.lemma_call_consumed(old(self), req.serial, false); }
+    //@ghost before#4/5 `return;`
+        // (the caller is gone: nothing to deliver)
+        proof { self.lemma_call_consumed(old(self), req.serial, false); }
+    //@ghost fn-tail
+        proof { self.lemma_call_consumed(old(self), req.serial, true); }
     //@end
 
     //@fn broker/src/broker.rs Broker::abort_call
@@ -213,6 +438,10 @@ impl Broker {
             final(self).inv_objects(), final(self).inv_services(), final(self).inv_object_services(), final(self).inv_ownership(),
             final(self).inv_calls(), final(self).inv_callers(), final(self).inv_conns(), final(self).inv_subs(),
             final(self).reg_winv(), final(self).reg_inv(),
+    //@ghost fn-tail
+        proof {
+            self.lemma_call_aborted(old(self), callee_serial, old(self).conns@.contains_key(old(self).calls()[callee_serial].caller_conn_id));
+        }
     //@end
 
     //@fn broker/src/broker.rs Broker::abort_function_call
